@@ -80,6 +80,9 @@ pub struct St {
     panicked: bool,
     /// position in the constraining log (trace validation only)
     logpos: u16,
+    /// the thread whose last step was `yield_now` (loom semantics, `Opts::yield_sem`): it is not
+    /// scheduled at the next decision if another thread can run
+    yielded: Option<u8>,
     /// relaxed probe stores seen so far in the replay: (location, value, thread, own clock component)
     probes: Vec<(u8, u8, u8, u8)>,
     ck: Option<Box<(Clocks, Clocks)>>,
@@ -94,11 +97,14 @@ pub struct Opts {
     /// the single spurious return of `Notify::wait` is possible
     pub spurious: bool,
     pub max_states: usize,
+    /// model loom's `yield_now`: the yielding thread skips the next scheduling decision if any other
+    /// thread can run (default: yield is a no-op)
+    pub yield_sem: bool,
 }
 
 impl Opts {
     pub fn new() -> Opts {
-        Opts { notify_any: false, clocks: false, spurious: true, max_states: 400_000 }
+        Opts { notify_any: false, clocks: false, spurious: true, max_states: 400_000, yield_sem: false }
     }
 }
 
@@ -228,6 +234,7 @@ impl<'a> Sc<'a> {
             lazy_init: [false; 3],
             panicked: false,
             logpos: 0,
+            yielded: None,
             probes: vec![],
             ck: if self.opts.clocks { Some(Box::new((mk(), mk()))) } else { None },
         }
@@ -948,6 +955,25 @@ impl<'a> Sc<'a> {
             let mut any = false;
             let mut blocked = 0;
             let mut live = 0;
+            // loom's yield semantics: the thread that just yielded sits out this decision if somebody else can run
+            let mut sit_out: Option<usize> = None;
+            if self.opts.yield_sem {
+                if let Some(y) = st.yielded {
+                    let y = y as usize;
+                    let mut probe: Vec<Step> = vec![];
+                    let mut dummy = (false, false);
+                    for t in 0..self.n {
+                        if t != y {
+                            probe.clear();
+                            self.steps(&st, t, &mut probe, &mut dummy);
+                            if !probe.is_empty() {
+                                sit_out = Some(y);
+                                break;
+                            }
+                        }
+                    }
+                }
+            }
             for t in 0..self.n {
                 steps.clear();
                 self.steps(&st, t, &mut steps, &mut races);
@@ -957,10 +983,22 @@ impl<'a> Sc<'a> {
                         blocked += 1;
                     }
                 }
+                if sit_out == Some(t) {
+                    steps.clear();
+                    continue;
+                }
+                let is_yield = matches!(self.prog.threads[t].get(st.pc[t] as usize), Some(Op::Yield));
                 for s in steps.drain(..) {
                     any = true;
                     match s {
-                        Step::Hidden(s) | Step::Done(s) => stack.push(s),
+                        Step::Hidden(mut s) => {
+                            s.yielded = None;
+                            stack.push(s)
+                        }
+                        Step::Done(mut s) => {
+                            s.yielded = if self.opts.yield_sem && is_yield { Some(t as u8) } else { None };
+                            stack.push(s)
+                        }
                     }
                 }
             }
